@@ -18,7 +18,7 @@ LEVEL_TEXT = ("Static structural proof of necessary conditions: (R9.1) every fun
               "registered as DEFINITION_INVALID and reachable from the dictionary, HED_DEF_EXPAND_INVALID as "
               "DEF_EXPAND_INVALID from string validation. The content of an expansion, the shrink/expand round trip "
               "beyond R9.1 and interleavings with copy/validate are NOT decided.")
-LEVEL_EXTRA = 'Added after the seeded evaluation: (R9.5) HedTag.__deepcopy__ copies the cached expansion, its flag and the parent link; (R9.6) validators obtain expansions with a copy of the tag; (R9.7) every access to a definition table case-folds with casefold (one frozen exception: keys copied from another table); (R9.8) the nested-Def search in definition contents is recursive. (R9.9) the Def-expand content test compares sorted forms of both groups. (R9.10) the column-wise expand/shrink variants store through a single indexer (no chained assignment).'
+LEVEL_EXTRA = 'Added after the seeded evaluation: (R9.5) HedTag.__deepcopy__ copies the cached expansion, its flag and the parent link; (R9.6) validators obtain expansions with a copy of the tag; (R9.7) every access to a definition table case-folds with casefold (one frozen exception: keys copied from another table); (R9.8) the nested-Def search in definition contents is recursive. (R9.9) the Def-expand content test compares sorted forms of both groups. (R9.10) the column-wise expand/shrink variants store through a single indexer (no chained assignment). (R9.11) written-form tag equality is only a fallback for tags the schema did not identify.'
 
 ROWS = [{"key": "DefinitionErrors." + k, "code": "DEFINITION_INVALID"} for k in (
     "WRONG_NUMBER_GROUPS", "WRONG_NUMBER_TAGS", "NO_DEFINITION_CONTENTS", "INVALID_DEFINITION_EXTENSION",
@@ -349,3 +349,30 @@ def run(ctx):
                                   "no-op), unlike the sibling variant that writes with `df.loc[mask, col] = ...`" % norm(t)[:50],
                                   desc="%s: table store through a single indexer" % f.short)
     ctx.floor("R9.10", "subscript stores in df_util", n_store, 6)
+
+    # ---------------- R9.11: equality with the expansion looks at the plugged-in value, not at the stale written form
+    ctx.rule("R9.11", "written-form tag equality is only a fallback for tags the schema did not identify")
+    teq = prog.find_class("HedTag").methods.get("__eq__")
+    if teq is None:
+        raise AnalysisError("anchor HedTag.__eq__ vanished")
+    ctx.saw(teq)
+    n_before = len(ctx.obligations)
+    # the written form is only a fallback for tags the schema did not identify: an identified tag whose value was
+    # plugged in later (placeholder replacement) still *reads* `Tag/#` in its written form
+    veq = view(ctx, teq)
+    for n_ in veq.cfg.nodes:
+        if n_.ast is None or n_.kind not in ("cond", "stmt"):
+            continue
+        roots = [n_.ast] if n_.kind == "cond" else ([n_.ast.value] if isinstance(n_.ast, (ast.Return, ast.Assign)) and n_.ast.value is not None else [])
+        cmps = [c for r in roots for c in ast.walk(r) if isinstance(c, ast.Compare) and
+                any(isinstance(x, ast.Attribute) and x.attr == "org_tag" for x in ast.walk(c))]
+        if not cmps:
+            continue
+        g = veq.guard_for(n_, lambda t: mentions(t, "_schema_entry"))
+        same = any(mentions(r, "_schema_entry") for r in roots)
+        ctx.check(g is not None or same, "R9.11", teq.qualname, cmps[0], loc(teq, cmps[0]),
+                  "two tags identified by the schema are also declared equal when only their *written* forms agree: after a "
+                  "placeholder is plugged in, the expansion's `Age/5` still reads `Age/#`, so a Def-expand group written with "
+                  "`Age/#` is accepted as equal to the expansion with `Age/5`",
+                  desc="written-form equality only for tags the schema did not identify")
+    ctx.floor("R9.11", "written-form comparisons in HedTag.__eq__", len(ctx.obligations) - n_before, 1)
